@@ -14,6 +14,8 @@
 (* Clauses                                                                 *)
 (*  terminates the operation returned within its deadline, without panic    *)
 (*  manifold   the result is closed, manifold and consistently oriented     *)
+(*  simple     2-D: no two segments join the same two vertices (a closed     *)
+(*             polygon has at least three)                                  *)
 (*  euler      same Euler characteristic (and number of components) as the  *)
 (*             input of the step                                            *)
 (*  novert     decimation / elimination introduced no new vertex            *)
@@ -48,6 +50,7 @@ Facts == [i \in 1..Len(R.steps) |->
             IF S(i).outcome # "ok" THEN [ok |-> FALSE, man |-> FALSE, euler |-> 0, comps |-> 0]
             ELSE LET m == ManifoldOK(S(i).F) IN
                  [ok |-> TRUE, man |-> m, euler |-> IF m THEN EulerNow(S(i).F) ELSE 0, comps |-> IF m THEN Comps(S(i).F) ELSE 0]]
+Simple2(F) == \A a, b \in 1..Len(F) : a # b => {F[a][1], F[a][2]} # {F[b][1], F[b][2]}
 StepHolds(fx, c, i) ==
     LET prevE == IF i = 1 THEN R.euler0 ELSE fx[i - 1].euler
         prevC == IF i = 1 THEN R.comps0 ELSE fx[i - 1].comps IN
@@ -55,6 +58,9 @@ StepHolds(fx, c, i) ==
       [] ~fx[i].ok -> TRUE
       [] c = "manifold" -> fx[i].man
       [] ~fx[i].man -> TRUE
+      \* 2-D: no two segments on the same pair of vertices (a component reduced below a triangle); the inputs of the
+      \* palette have none, and a step is only judged while every earlier step passed this too
+      [] c = "simple" -> R.dim = 3 \/ (\E j \in 1..(i - 1) : ~Simple2(S(j).F)) \/ Simple2(S(i).F)
       [] c = "euler" -> fx[i].euler = prevE /\ (fx[i].comps = 0 \/ prevC = 0 \/ fx[i].comps = prevC)
       [] c = "novert" -> S(i).newverts = 0
       [] c = "keep" -> S(i).keepok
@@ -65,7 +71,7 @@ StepHolds(fx, c, i) ==
 \* and no step so far merged vertices
 Judged(fx, i) == /\ \A j \in 1..(i - 1) : fx[j].ok /\ fx[j].man
                  /\ \A j \in 1..i : ~S(j).merged
-Clauses == {"terminates", "manifold", "euler", "novert", "keep", "exact", "rule"}
+Clauses == {"terminates", "manifold", "simple", "euler", "novert", "keep", "exact", "rule"}
 Fails == {<<c, i>> \in Clauses \X (1..Len(R.steps)) : Judged(facts, i) /\ ~StepHolds(facts, c, i)}
 \* two steps per record: first the per-step facts are computed (once) into a variable, then the clauses
 Init == rec \in 1..Len(Recs) /\ done = 0 /\ facts = << >>
